@@ -193,7 +193,10 @@ def _run_case(case, rec, mon=None):
             for W in Ws:
                 for i in sorted({0, nf - 1, int(rng.integers(nf))}):
                     try:
-                        bank.get_truncated_response(i, W)
+                        if (i + W) % 3 == 0:
+                            bank.get_truncated_response(filt_idx=i, width=W)
+                        else:
+                            bank.get_truncated_response(i, W)
                     except Exception:
                         pass
             # the first widths again, after everything else has been asked
